@@ -220,6 +220,15 @@ def check_props(prop):
         ok = False; failed = "no Print Assumptions for " + ",".join(missing)
     return {"ok": ok, "theorems": thms, "log": out[-2000:], "failed": failed, "stated": stated}
 
+def coqchk_props(prop):
+    """thorough tier: the compiled Props/<prop>.vo and everything it depends on re-checked by the independent checker coqchk;
+    returns (ok, summary). ok requires 'Axioms: <none>' and no type-in-type / unsafe fixpoint / assumed positivity."""
+    rc, out = build.sh("timeout 1500 coqchk -o -silent -Q . EE EE.Props.%s" % prop, cwd=COQ, timeout=1600)
+    tail = out[-1500:]
+    ok = (rc == 0 and "Axioms: <none>" in out and "relying on type-in-type: <none>" in out
+          and "unsafe (co)fixpoints: <none>" in out and "positivity is assumed: <none>" in out)
+    return ok, " ".join(tail.split())[-400:]
+
 # ---------------------------------------------------------------- known findings
 def load_known():
     p = os.path.join(VERIF, "known_findings.json")
